@@ -24,6 +24,10 @@ func (e *pExec) checkGSAP(site string, n, blockMax int) {
 		e.cnt.inc("gsap.skipped.parsenil-history")
 		return
 	}
+	if int64(blockMax)*int64(e.cpos+blockMax-e.off) > 20_000_000 {
+		e.cnt.inc("gsap.skipped.large") // the brute-force oracle is quadratic
+		return
+	}
 	blk := &e.blkBuf
 	blockEnd := e.cpos + blockMax
 	best := func(p int) int {
@@ -94,6 +98,10 @@ func xzCost(m, o uint32) uint64 {
 // checkOSAP is the brute-force oracle of C11: the cost of the emitted block
 // equals the optimum over all valid parses of the block.
 func (e *pExec) checkOSAP(site string, n int) {
+	if int64(n)*int64(e.cpos+n-e.off) > 20_000_000 {
+		e.cnt.inc("osap.skipped.large") // the brute-force optimum is quadratic
+		return
+	}
 	blk := &e.blkBuf
 	// cost of the emitted parse
 	var got uint64
